@@ -442,12 +442,12 @@ def rule_m17(repo, rid='C04.M17'):
     for mi in macro_index(repo):
         if mi.eval is None or mi.gpt is None:
             continue
-        invented = [r for r in ast.walk(mi.eval.node) if isinstance(r, ast.Return) and isinstance(r.value, ast.Call) and call_name(r.value) == 'Thm' and
+        ev, gp = unroll_literal_loops(mi.eval.node), unroll_literal_loops(mi.gpt.node)
+        invented = [r for r in ast.walk(ev) if isinstance(r, ast.Return) and isinstance(r.value, ast.Call) and call_name(r.value) == 'Thm' and
                     len(r.value.args) >= 2 and all(isinstance(a, (ast.Name, ast.Call)) and 'hyps' not in src(a, 200) for a in r.value.args[1:])]
-        assumed = [c for c in ast.walk(mi.gpt.node) if isinstance(c, ast.Call) and (call_name(c) or '').endswith('ProofTerm.assume')]
+        assumed = [c for c in ast.walk(gp) if isinstance(c, ast.Call) and (call_name(c) or '').endswith('ProofTerm.assume')]
         if not invented or not assumed:
             continue
-        ev, gp = unroll_literal_loops(mi.eval.node), unroll_literal_loops(mi.gpt.node)
         fe, fg = LocalFlow(ev), LocalFlow(gp)
         pe = [a.arg for a in ev.args.args][1:]
         pg = [a.arg for a in gp.args.args][1:]
